@@ -139,6 +139,22 @@ pub struct Item {
 }
 
 /// Built package plus the states reached by short sign/clear/re-parse histories.
+/// A signer that cannot sign (unreachable signing service, unplugged token): consumes the data, returns an error.
+#[derive(Debug, Clone, Copy)]
+pub struct UnavailableSigner;
+
+impl rpm::signature::Signing for UnavailableSigner {
+    type Signature = Vec<u8>;
+    fn sign(&self, mut data: impl std::io::Read, _t: rpm::Timestamp) -> Result<Vec<u8>, rpm::Error> {
+        let mut v = vec![];
+        let _ = data.read_to_end(&mut v);
+        Err(rpm::Error::KeyNotFoundError { key_ref: "signing service unavailable".into() })
+    }
+    fn algorithm(&self) -> rpm::signature::AlgorithmType {
+        rpm::signature::AlgorithmType::RSA
+    }
+}
+
 pub fn with_histories(env: &Env, spec: &BuildSpec, deep: bool) -> Result<Vec<Item>, String> {
     let (pkg, bytes) = spec.build_bytes(env)?;
     let mut out = vec![Item { desc: json!({"spec": spec.to_json(), "history": []}), bytes, spec: spec.clone(), has_history: false }];
@@ -151,12 +167,21 @@ pub fn with_histories(env: &Env, spec: &BuildSpec, deep: bool) -> Result<Vec<Ite
     let mut c = pkg.clone();
     c.clear_signatures().map_err(|e| e.to_string())?;
     push(vec!["clear"], &c);
+    // a signing attempt that fails: whatever state the object is left in is what the caller will write
+    let mut f = pkg.clone();
+    if f.sign_with_timestamp(UnavailableSigner, 1_600_000_000u32).is_err() {
+        push(vec!["sign(unavailable signer) → Err"], &f);
+    }
     if deep {
         let mut s = pkg.clone();
         s.sign_with_timestamp(env.signer(Key::Ed25519), 1_600_000_000u32).map_err(|e| e.to_string())?;
         push(vec!["sign(ed25519)"], &s);
         s.sign_with_timestamp(env.signer(Key::Rsa4096), 1_700_000_000u32).map_err(|e| e.to_string())?;
         push(vec!["sign(ed25519)", "sign(rsa4096)"], &s);
+        let mut f = s.clone();
+        if f.sign(UnavailableSigner).is_err() {
+            push(vec!["sign(ed25519)", "sign(rsa4096)", "sign(unavailable signer) → Err"], &f);
+        }
         s.clear_signatures().map_err(|e| e.to_string())?;
         push(vec!["sign(ed25519)", "sign(rsa4096)", "clear"], &s);
     }
@@ -222,7 +247,7 @@ pub fn run_corpus(ctx: &Ctx, sub: &str, rule_suffix: &str, oracle: &ItemOracle) 
 pub fn run_shared(ctx: &Ctx, sub: &str, which: &[&str]) -> SubReport {
     let do01 = which.contains(&"C01");
     let do16 = which.contains(&"C16");
-    run_corpus(ctx, sub, "oracles: byte round trip and segment offsets", &move |sub, it, rank, acc| {
+    run_corpus(ctx, sub, "oracles: byte round trip, segment offsets, and the path-based entry points (open through a regular file and through a named pipe, write_file over existing longer files) agreeing with parse / write", &move |sub, it, rank, acc| {
         let case = || it.desc.clone();
         if do01 {
             if let Some(p) = oracle_roundtrip(sub, &it.bytes, rank, &case, acc) {
@@ -239,6 +264,7 @@ pub fn run_shared(ctx: &Ctx, sub: &str, which: &[&str]) -> SubReport {
             if let Ok(Ok(p)) = parse_pkg(&it.bytes) {
                 acc.nontrivial += 1;
                 oracle_offsets(sub, &p, rank, &case, acc);
+                oracle_file_api(sub, &it.bytes, rank, &case, acc);
                 acc.sample(rank, || json!({"corpus_item": it.desc["spec"]["name"], "history": it.desc["history"], "bytes": it.bytes.len()}));
             }
         }
